@@ -451,7 +451,10 @@ def prof_queries(g):
     g.emit('obs A')
     g.emit('shape A')
     for k in g.queries('A', 12):
-        g.emit('q A %s' % g.p(k))
+        t = g.p(k)
+        g.emit('q A %s' % t)
+        # get_lpm_mut is a separate loop in the code: same query, write nothing
+        g.emit('lpmmut A %s +0' % t)
     # the set twin
     for _ in range(g.r.randint(0, 6)):
         set_step(g)
